@@ -34,7 +34,7 @@ DEFAULT_PROFILE = {
     "p_sstream": 0.25, "p_cstream": 0.15, "p_bidi": 0.15, "p_lro": 0.3, "p_raw_op": 0.08,
     "p_http": 0.9, "p_signature": 0.7, "p_routing": 0.25, "p_keyword_rpc": 0.08,
     "p_service_config": 0.8, "p_yaml": 0.3, "p_reserved_field": 0.08, "p_two_services": 0.25,
-    "p_foreign_request": 0.1, "p_shuffle_numbers": 0.2, "p_additional_binding": 0.25, "p_param_name_collision": 0.0, "p_stream_of_empty": 0.06, "p_stream_routing": 0.0, "p_routing_name_clash": 0.0, "p_required_optional": 0.0, "p_body_only_in_additional": 0.0, "p_foreign_paged": 0.0,
+    "p_foreign_request": 0.1, "p_shuffle_numbers": 0.2, "p_additional_binding": 0.25, "p_param_name_collision": 0.0, "p_stream_of_empty": 0.06, "p_stream_routing": 0.0, "p_routing_name_clash": 0.0, "p_required_optional": 0.0, "p_body_only_in_additional": 0.0, "p_foreign_paged": 0.0, "p_case_twin_fields": 0.0, "p_deprecated_flattened": 0.0,
     "p_auto_populate": 0.0, "p_google_api_ns": 0.0, "sig_variants": False, "p_multi_var_path": 0.0, "mixin_variants": False, "p_add_iam_methods": 0.0, "p_equal_sort_keys": 0.0, "p_reserved_path_var": 0.0, "p_local_empty": 0.0, "p_same_method_two_services": 0.0, "p_required_enum": 0.0, "p_custom_http_pattern": 0.0, "p_real_api": 0.04, "p_nested_name_ties": 0.15, "p_double_star_path": 0.0, "p_value_fields": 0.0, "p_mixed_foreign_io": 0.0, "common_file_names": ["resources"],
     "transports": ["grpc", "grpc+rest", "grpc+rest", "rest"],
     "p_numeric_enums": 0.3,
@@ -327,6 +327,10 @@ def _add_auto_populated(cx, pkg, files, services):
                 f = {"name": n, "number": base + i, "type": "string", "uuid4": True}
                 if rng.random() < 0.5:
                     f["optional"] = True
+                elif rng.random() < 0.6:
+                    # the usual googleapis spelling: a plain string annotated field_behavior = OPTIONAL (documentation
+                    # only: it has NO presence, so '' means unset)
+                    f["behaviors"] = ["OPTIONAL"]
                 req["fields"].append(f)
             if rng.random() < 0.3:     # decoy: annotated but not listed
                 req["fields"].append({"name": "trace_id", "number": base + 5, "type": "string", "uuid4": True})
@@ -441,6 +445,11 @@ def _gen_methods(cx, pkg, main, svc, noun, res, enums, msgs):
         if rng.random() < 0.3:
             # naming coincidence: a required scalar whose name occurs inside the body field's name (wid / widget)
             fields.append({"name": low[:max(2, len(low) // 2)], "number": 5, "type": rng.choice(["int32", "string", "bool"]), "required": True})
+        if cx.chance("p_deprecated_flattened"):
+            # a field marked [deprecated = true] that is still named in the method_signature (old callers keep passing it)
+            for f in fields:
+                if f["name"] in (f"{low}_id", "validate_only") and rng.random() < 0.7:
+                    f["deprecated"] = True
         _msg(main, f"Create{noun}Request", fields)
         m = {"name": f"Create{noun}", "input": f"{P}.Create{noun}Request", "output": P + "." + noun}
         if cx.chance("p_http"):
@@ -526,6 +535,12 @@ def _gen_methods(cx, pkg, main, svc, noun, res, enums, msgs):
                 fields.append({"name": nm, "number": 12, "type": t, "required": True})
                 if cx.chance("p_required_optional"):
                     fields[-1]["optional"] = True      # REQUIRED and proto3-`optional` (a synthetic one-member oneof)
+            if cx.chance("p_case_twin_fields") and not ({"user_name", "username"} & used):
+                # two fields whose JSON names differ only in case (userName / username): a REQUIRED new spelling next to a
+                # legacy one
+                fields.append({"name": "user_name", "number": 13, "type": "string", "required": True})
+                fields.append({"name": "username", "number": 14, "type": "string"})
+                used |= {"user_name", "username"}
             _msg(main, f"{mname}Request", fields)
             out = rng.choice([P + "." + noun, P + "." + noun, ".google.protobuf.Empty", f"{P}.{mname}Response"])
             if cx.chance("p_local_empty"):
@@ -852,6 +867,12 @@ def _gen_list_variant(cx, pkg, main, svc, noun, res, enums, msgs):
         fields.append({"name": "order_by", "type": "string"})
     if rng.random() < 0.3:
         fields.append({"name": "show_deleted", "type": "bool"})
+    if rng.random() < 0.2:
+        # google.cloud.compute.v1 style: the paging fields are declared proto3 `optional` (each gets a synthetic oneof)
+        for f in fields:
+            if f["name"] in ("page_token", "page_size", "max_results") and not f.get("repeated") and f["type"] != "message":
+                f["optional"] = True
+        cx.optional_paging = True
     head, tail = fields[:1], fields[1:]
     rng.shuffle(tail)
     fields = head + tail
@@ -867,6 +888,9 @@ def _gen_list_variant(cx, pkg, main, svc, noun, res, enums, msgs):
         rf.append({"name": "next_page_token", "type": rng.choice(["bytes", "int64"])})
     elif c < 0.96:
         rf.append({"name": "next_page_token", "type": "string", "repeated": True})
+    if rf and not rf[-1].get("repeated") and getattr(cx, "optional_paging", False):
+        rf[-1]["optional"] = True
+        cx.optional_paging = False
     reps = []
     c = rng.random()
     if c < 0.55:
@@ -970,6 +994,14 @@ def gen_service_config(rng, spec, p_named=0.7):
             if prev:
                 e["retryPolicy"] = copy.deepcopy(rng.choice(prev)["retryPolicy"])
         entries.append(e)
+    if rng.random() < 0.2 and methods:
+        # a SERVICE-WIDE entry (name without method).  This generator matches exact {service, method} names only, so it
+        # configures nothing - in particular it must not take precedence over a method's own entry, wherever it stands
+        svc_name = rng.choice(methods)[0]
+        e = {"name": [{"service": svc_name}], "timeout": rng.choice(["3s", "45s", "90s"]),
+             "retryPolicy": {"maxAttempts": 4, "initialBackoff": "0.2s", "maxBackoff": "3s", "backoffMultiplier": 2,
+                             "retryableStatusCodes": rng.sample(ALL_CODES, 2)}}
+        entries.insert(0 if rng.random() < 0.6 else rng.randrange(len(entries) + 1), e)
     if rng.random() < 0.08:
         # legal and inert: an entry that names no method at all (gRPC: applies to nothing), e.g. a forgotten default
         entries.insert(rng.randrange(len(entries) + 1), {"timeout": "45s"})
@@ -1001,6 +1033,10 @@ def twin_spec(rng, spec):
     twin = copy.deepcopy(spec)
     if twin.get("service_config") is not None or rng.random() < 0.3:
         twin["service_config"] = gen_service_config(rng, twin, p_named=rng.choice([0.4, 0.7, 1.0]))
+    for f in twin["files"]:
+        for rd in f.get("resource_definitions", ()):
+            # the resource's pattern was edited too (same type, other pattern)
+            rd["patterns"] = ["organizations/{organization}/" + rd["patterns"][0]] if rng.random() < 0.7 else rd["patterns"]
     y = twin.get("service_yaml")
     if y:
         rules = (y.get("http") or {}).get("rules")
